@@ -10,11 +10,24 @@ PROPS = {
         modules=['NitroVerif.Props.C19'],
         runs=[('codec', gens.gen_codec, 300, 20000)],
         level='proof',
+        level_text='C19_file_roundtrip, C19_v0_roundtrip, C19_kv_roundtrip, C19_compareKV and the guard lemmas are proved in Lean for all item lists, all byte contents, any hash; the model is tied to item.go/file.go by regenerated widths/endianness/tests and by a differential run of the real writer/reader',
         trusted=['Lean 4 kernel', 'tools/gofacts translation of item.go/file.go widths and tests',
                  'differential run against the real rawFileWriter/rawFileReader/KV functions',
                  'bufio/os modelled as byte lists; crc32 generic in the theorems, concrete in the driver'],
     ),
+    'C20': dict(
+        modules=['NitroVerif.Props.C20'],
+        runs=[('table', gens.gen_table, 400, 30000), ('nodelist', gens.gen_nodelist, 200, 10000)],
+        level='proof',
+        level_text='C20_table_refines_map (any hash, any op sequence under the Update contract), C20_table_invariant and C20_nodelist are proved in Lean; tied to nodetable/table.go by regenerated conditions and by a differential run of the real table and list',
+        trusted=['Lean 4 kernel', 'tools/gofacts translation of nodetable/table.go status constants and insertion conditions',
+                 'differential run against the real nodetable.NodeTable and nitro.NodeList',
+                 'Go maps modelled as association lists; pointers below 2^63; keyEqual compares keyOf(pointer) with the key'],
+    ),
 }
+
+
+NOT_YET = {}
 
 
 def nontrivial_default(case, outs):
@@ -141,8 +154,12 @@ def check(prop, tier, seed, no_build=False):
         C.log('VIOLATION property=%s replay=%s no-failing-input-found' % (prop, path))
         rc = 1
 
-    cov['obligations'] = len(thms)
-    cov['discharged'] = len(thms) if proof_ok else 0
+    if proof_ok and thms:
+        cov['obligations'] = len(thms)
+        cov['discharged'] = len(thms)
+    else:
+        cov['obligations_total'] = len(thms)
+        cov['obligations_not_discharged'] = 'the proof build or the audit failed in this run; see proof_errors'
     cov['theorems'] = [t for _, t in thms]
     cov['checker_cmd'] = 'cd /verif/lean && lake build ' + ' '.join(modules) + ' && lake env lean <#print axioms of each theorem>'
     cov['trusted_base'] = cfg.get('trusted', [])
